@@ -438,7 +438,7 @@ func equalRunes(a, b []rune) bool {
 }
 
 // inProvedFragment re-implements the Lean predicate `inW` (lean/CaddyModel/C17/Fragment.lean):
-// plain words (also with placeholder groups `{x}`, `a{x}b`), non-CR white space, `… {⏎ … ⏎}` blocks, simple double-quoted and backquoted strings, comments without backslash / trailing blank (not right
+// plain words (also with placeholder groups `{x}`, `a{x}b`), non-CR white space, `… {⏎ … ⏎}` blocks, one-line double-quoted (escapes allowed) and backquoted strings, comments without backslash / trailing blank (not right
 // after `}` on the same line, not right before `{`). On this
 // fragment token preservation and idempotence are THEOREMS (Props.fmt_preserves_tokens_partial /
 // fmt_idempotent_partial); the model prints the same bit (field W:), so the two definitions are
@@ -498,10 +498,16 @@ func inProvedFragment(x string) bool {
 			i = j
 			kind = kCmt
 		} else if r[i] == '"' {
-			// a simple string: one line, no backslash, closing quote followed by white space
+			// a one-line string: a backslash takes the next character with it; closing quote followed by white space
 			j := i + 1
 			for j < n && r[j] != '"' {
-				if r[j] == '\\' || r[j] == '\n' {
+				if r[j] == '\\' {
+					j++
+					if j >= n {
+						return false
+					}
+				}
+				if r[j] == '\n' {
 					return false
 				}
 				j++
